@@ -3,6 +3,7 @@ import Model.Tab.TextTab
 import Model.Spec.Layout
 import Model.Tab.KeyHeader
 import Model.Spec.KeyHeader
+import Model.Spec.TextCsv
 
 namespace Driver.C16
 open Proto Tab.TextTab
@@ -99,11 +100,23 @@ def handleKh (l : Line) : IO Unit := do
     if ns.isEmpty then "-" else ",".intercalate (ns.map fun (v, s, n) => s!"{v.toHex}:{s}:{n}")
   IO.println s!"spec {id} lv={if lv.isEmpty then "-" else "/".intercalate lv}"
 
+/- case <id> kind=e2e text=<hex> csv=<hex> warn=<hex>   (benchstat's two renderings of the same Tables)
+   spec <id> agree=ok|… hdr=ok|… layout=ok|… -/
+
+def strOf (b : Bytes) : String := (String.fromUTF8? (ByteArray.mk b.toArray)).getD "?"
+
+def handleE2e (l : Line) : IO Unit := do
+  match l.bytes? "text", l.bytes? "csv", l.bytes? "warn" with
+  | some t, some c, some w =>
+    IO.println s!"spec {l.id} {(Spec.TextCsv.judge (strOf t) (strOf c) (strOf w)).show}"
+  | _, _, _ => pure ()
+
 def handle (l : Line) : IO Unit := do
   if l.kind != "case" then return
   match l.getD "kind" with
   | "tab" => handleTab l
   | "kh" => handleKh l
+  | "e2e" => handleE2e l
   | _ => pure ()
 
 end Driver.C16
